@@ -438,14 +438,21 @@ def run_inside_stream(ctx, n_cases):
         # lands inside, beyond the other side, or within the touch tolerance of it, depending on the thickness)
         areas = np.linalg.norm(np.cross(faces[:, 1] - faces[:, 0], faces[:, 2] - faces[:, 0]), axis=1)
         cand = [i for i in range(len(faces)) if areas[i] >= 0.5 * areas.max()] if kind == "slab" else list(range(len(faces)))
-        for _ in range(2):
-            f = faces[rng.choice(cand)].copy()
+        picks = [faces[rng.choice(cand)].copy() for _ in range(2)]
+        if kind == "slab" and len(cand) < len(faces):
+            # a SLIVER side facet of the slab, its corners rotated so that the short edge comes first (the edge the
+            # displacement of the check point was measured by before repo fix ed093b8)
+            sl = faces[rng.choice([i for i in range(len(faces)) if i not in cand])].copy()
+            k0 = int(np.argmin([np.linalg.norm(sl[k] - sl[(k + 1) % 3]) for k in range(3)]))
+            picks.append(sl[[k0, (k0 + 1) % 3, (k0 + 2) % 3]])
+            stats["inwards_sliver_rows"] = stats.get("inwards_sliver_rows", 0) + 1
+        for f in picks:
             if rng.random() < 0.5:
                 f = f[[0, 2, 1]]
             with np.errstate(all="ignore"):
                 ri = bool(mod.is_facet_inwards(f.copy(), faces.copy()))
                 o = np.cross(f[0] - f[1], f[1] - f[2])
-                chk = f.mean(axis=0) + o / np.linalg.norm(o) * 1e-5 * np.linalg.norm(f[0] - f[1])
+                chk = f.mean(axis=0) + o / np.linalg.norm(o) * 1e-5 * max(np.linalg.norm(f[0] - f[1]), np.linalg.norm(f[1] - f[2]), np.linalg.norm(f[2] - f[0]))
             lines.append(f"trimesh inwards {enc(f)} {fenc}")
             expect.append(("inwards", ri, kind, "facet", faces, chk))
             stats["inwards_rows"] += 1
